@@ -185,6 +185,35 @@ Theorem C20_relock_stable : forall idx man locked,
           exists w, alookup k locked = Some w /\ choose_version idx locked k rgs = Some w).
 Proof. exact relock_stable. Qed.
 
+(* ---------------------------------------------------------------- keeping the lock after an edit *)
+
+(* ManifestFile::lock keeps the lock file (copy_from_lock) when is_lock_file_up_to_date says so.
+   If the lock's entries were a valid solution for the manifest they were made for, they are one
+   for the edited manifest, and every edge is bound correctly by the copied resolution. *)
+Theorem C20_up_to_date_sound : forall idx man1 man2 (l : lockfile),
+  valid_solution idx man1 (locked_of (lock_entries l)) = true ->
+  up_to_date matches_fix l man2 = true ->
+  valid_solution idx man2 (locked_of (lock_entries l)) = true.
+Proof. exact up_to_date_sound. Qed.
+
+Theorem C20_copy_from_lock_right : forall idx man1 man2 (l : lockfile) d,
+  valid_solution idx man1 (locked_of (lock_entries l)) = true ->
+  up_to_date matches_fix l man2 = true ->
+  edge idx man2 (locked_of (lock_entries l)) d ->
+  exists w, index_dep_version matches_fix (copy_from_lock l) d = Some w
+         /\ alookup (dep_key d) (locked_of (lock_entries l)) = Some w
+         /\ satisfies (dreq d) w = true.
+Proof. exact copy_from_lock_right. Qed.
+
+(* With the matcher of the tree before dd15f85 the up-to-date test was unsound as well. *)
+Theorem C20_up_to_date_cur_refuted :
+  exists idx man1 man2 (l : lockfile),
+    valid_solution idx man1 (locked_of (lock_entries l)) = true
+    /\ up_to_date matches_cur l man2 = true
+    /\ valid_solution idx man2 (locked_of (lock_entries l)) = false
+    /\ exists_solution idx man2 <> None.
+Proof. exact up_to_date_cur_refuted. Qed.
+
 (* ---------------------------------------------------------------- witnesses of the known findings *)
 
 Theorem C20_lock_crash_cur_refuted :
